@@ -74,6 +74,12 @@ def getitem(ex, state, arr, idx, line, for_store=False):
             _, lo, hi, step = it
             if step is not None:
                 raise Unsupported('strided array slice at line %d' % line)
+            if isinstance(lo, SMaxRank) or isinstance(hi, SMaxRank):
+                for b_ in (lo, hi):
+                    if isinstance(b_, SMaxRank):
+                        ex.ctx.oblige(state, 'slice-bound-is-an-integer', line, z3.Not(b_.is_inf), 'slice indices must be integers (got inf)')
+                lo = lo.val if isinstance(lo, SMaxRank) else lo
+                hi = hi.val if isinstance(hi, SMaxRank) else hi
             a, ln = _clamp_slice(lo, hi, n)
             if lo is None and hi is None:
                 a, ln = z3.IntVal(0), n
